@@ -7,6 +7,7 @@ CHECK = {
     "parts": [
         {"name": "stress", "pkg": "websocket", "run": "^TestVerif_C15_Stress$", "race": True, "timeout": {"quick": 900, "thorough": 7200}},
         {"name": "closewindow", "pkg": "websocket", "run": "^TestVerif_C15_CloseWindow$", "race": True, "timeout": {"quick": 900, "thorough": 7200}},
+        {"name": "deadlines", "pkg": "websocket", "run": "^TestVerif_C15_Deadlines$", "race": True, "timeout": {"quick": 900, "thorough": 3600}},
         {"name": "directed", "pkg": "websocket", "run": "^TestVerif_C15_Directed$", "race": True, "timeout": {"quick": 900, "thorough": 7200}},
     ],
     "assumptions": [
